@@ -66,7 +66,37 @@ def gen_area(rng, unit: F, off: F, kinds=("box", "circle", "concave", "hole")):
     return kind, g
 
 
+def structured_traces(rng, unit: F, off: F):
+    """hand-shaped families that random generation rarely produces: mutually abutting (hooked) pairs, spirals,
+    a trace with both ends abutting, a comb of abutments on one target; random lattice symmetry"""
+    fam = rng.choice(["hook", "spiral", "both_ends", "comb"])
+    if fam == "hook":      # A starts on B, B ends on A
+        tr = [[(24, 0), (24, 40), (96, 40), (96, -32)], [(0, 0), (96, 0)]]
+    elif fam == "spiral":  # A ends on B, B ends on C, C ends on A
+        tr = [[(0, 0), (80, 0)], [(80, -24), (80, 56)], [(104, 56), (16, 56)], [(16, 80), (16, 0)]]
+        tr = [[(0, 0), (80, 0)], [(80, 0), (80, 56)], [(80, 56), (16, 56)]]
+        tr = [[(0, 0), (96, 0)], [(72, 0), (72, 64)], [(72, 40), (8, 40)], [(32, 40), (32, 0)]]
+    elif fam == "both_ends":  # one trace with both ends abutting two others
+        tr = [[(0, 0), (0, 80)], [(64, 0), (64, 80)], [(0, 24), (32, 48), (64, 32)]]
+    else:
+        tr = [[(0, 0), (120, 0)]] + [[(16 + 24 * i, 0), (16 + 24 * i + rng.choice([-4, 0, 6]), rng.choice([24, -32, 40]))] for i in range(rng.randint(2, 4))]
+    sx, sy = rng.choice([1, -1]), rng.choice([1, -1])
+    swap = rng.random() < 0.5
+    out = []
+    for l in tr:
+        pts = []
+        for x, y in l:
+            x, y = sx * (x - 48), sy * (y - 16)
+            if swap:
+                x, y = y, x
+            pts.append((off + unit * F(x), off + unit * F(y)))
+        out.append(pts)
+    rng.shuffle(out)
+    return out
+
+
 def arr_request(traces, areas, t, k=50):
+    """k: separation margin in multiples of t (int or "n/d" string)"""
     return f"arr t={rat(t)} k={k} areas={area_rows(areas)} traces={lines(traces)}"
 
 
@@ -99,7 +129,7 @@ class Arrangement:
             self.source = [int(x) for x in r["source"].split(",")] if r.get("source") else []
 
 
-def valid_maps(ctx, rng, count, t, unit=F(1), off=F(0), area_kinds=("box", "circle", "concave", "hole"), nmax=8, max_rounds=60, k=50):
+def valid_maps(ctx, rng, count, t, unit=F(1), off=F(0), area_kinds=("box", "circle", "concave", "hole"), nmax=8, max_rounds=60, k=50, structured=0.15):
     """yield (traces as Fractions, area geometry, kind, Arrangement) for `count` valid maps"""
     out = []
     rejected = {}
@@ -108,7 +138,7 @@ def valid_maps(ctx, rng, count, t, unit=F(1), off=F(0), area_kinds=("box", "circ
         rounds += 1
         cands = []
         for _ in range(max(64, 6 * (count - len(out)))):
-            tr = gen_traces(rng, unit, off, nmax=nmax)
+            tr = structured_traces(rng, unit, off) if rng.random() < structured else gen_traces(rng, unit, off, nmax=nmax)
             if len(tr) < 2:
                 continue
             kind, area = gen_area(rng, unit, off, area_kinds)
